@@ -13,11 +13,12 @@ RULES = {
     'C13.R5': 'size bounds: lower bound after a skip is taken after the removals; an edge traversal does not start with the node count; size_hint of wrappers delegates to the traversal',
     'C13.R7': 'index validity = arena membership for every index-taking method of Tree (path_to_node, add_child_node, remove_all_descendants, node accessors)',
     'C13.R8': 'depth bookkeeping: children are enqueued with the depth of the popped entry + 1',
+    'C13.R9': 'path_to_node: walk of parent edges from the node to the root recording (source, label), reversed once',
     'C13.R6': 'index-order iterators filter on isleaf with the right polarity; num_terminals / num_nodes count the matching iterator',
 }
-FLOORS = {'C13.R1': 3, 'C13.R2': 3, 'C13.R3': 2, 'C13.R4': 6, 'C13.R5': 6, 'C13.R6': 8, 'C13.R7': 9, 'C13.R8': 3}
+FLOORS = {'C13.R1': 3, 'C13.R2': 3, 'C13.R3': 2, 'C13.R4': 6, 'C13.R5': 6, 'C13.R6': 8, 'C13.R7': 9, 'C13.R8': 3, 'C13.R9': 1}
 EXPLANATION = 'Sibling agreement between the three traversals and pairing/ordering rules on their bookkeeping.'
-DOES_NOT_DECIDE = 'exact visiting sequences, depth values, depth_stats, path_to_node arithmetic, numeric tightness of size_hint'
+DOES_NOT_DECIDE = 'exact visiting sequences as a whole (decided through their local rules only), depth()/depth_stats aggregation, numeric tightness of size_hint'
 LIFO_POP = {'Vec::pop'}
 FIFO_POP = {'VecDeque::pop_front'}
 
@@ -50,6 +51,7 @@ def run(ctx):
     r5_wrappers(ctx)
     r6(ctx)
     r7(ctx)
+    r9(ctx)
 
 
 def r1(ctx, ty, b):
@@ -288,6 +290,54 @@ def r5_wrappers(ctx):
                 ctx.bad('C13.R5', site, 'size_hint of a stateful iterator does not read the iterator\'s progress: %s' % [fmt(r) for r in rets], b.span)
     if n < 2:
         ctx.lost('C13.R5', 'Iterator::size_hint wrappers (TraversalIter, PolyhedraIter)')
+
+
+def r9(ctx):
+    """path_to_node walks parent edges from the node to the root, records (source, label) of each edge and reverses the list."""
+    b = ctx.body('C13.R9', 'Tree::path_to_node')
+    if b is None:
+        return
+    R = Resolver(b)
+    cfg = b.cfg()
+    problems = []
+    cur = [v for v in R.cyclic]
+    pushes = [w for w in mut_calls(b, R) if w.callee.name == 'push']
+    revs = [w for w in mut_calls(b, R) if w.callee.name == 'reverse']
+    if len(cur) != 1 or len(pushes) != 1:
+        ctx.undecided('C13.R9', 'Tree::path_to_node#walk', 'unexpected shape (loop variables %d, pushes %d)' % (len(cur), len(pushes)), b.span)
+        return
+    var = ('var', cur[0], b.local_name(cur[0]))
+    defs = R.var_defs(cur[0])
+    init = [d for d in defs if d[2] == ('param', 'node_idx')]
+    step = [d for d in defs if d[2] != ('param', 'node_idx')]
+    edge = ('call', 'Tree::parent', (('param', 'self'), var))
+    def is_edge_field(e, f):
+        return e[0] == 'field' and e[2] == f and is_call(e[1], 'Tree::parent') and s(e[1]) == s(edge)
+    if not (len(init) == 1 and len(step) == 1 and is_edge_field(step[0][2], 'source_idx')):
+        problems.append('the walk does not start at node_idx and move to the source of the parent edge')
+    v = pushes[0].args[1]
+    if not (v[0] == 'agg' and v[1] == 'tuple' and len(v[2]) == 2 and is_edge_field(v[2][0], 'source_idx') and is_edge_field(v[2][1], 'label')):
+        problems.append('the recorded pair is not (source, label) of the parent edge of the current node')
+    lits = literals(b, R, pushes[0].bb)
+    if not any(l[0] == 'is' and l[2] == frozenset(['Ok']) and is_call(l[1], 'Tree::parent') for l in lits):
+        problems.append('the pair is recorded without a successful parent lookup')
+    rets = [e for _, e in R.return_expr()]
+    okret = False
+    for e in (rets[0][2] if rets and rets[0][0] == 'phi' else rets):
+        if e[0] == 'agg' and isinstance(e[1], tuple) and e[1][2] == 'Ok' and s(e[2][0]) == s(pushes[0].args[0]):
+            okret = True
+    hdrs = [h for h in cfg.loop_headers() if isinstance(h, int)]
+    if not (okret and len(revs) == 1 and s(revs[0].args[0]) == s(pushes[0].args[0]) and hdrs and revs[0].bb not in cfg.loop_of(hdrs[0])):
+        problems.append('the collected edges are not reversed exactly once after the walk and returned')
+    # the loop ends on MissingParent only; other errors are propagated
+    rlits = literals(b, R, revs[0].bb) if revs else []
+    if not any(l[0] == 'is' and l[2] == frozenset(['MissingParent']) for l in rlits):
+        problems.append('the walk does not end exactly at the parentless node (MissingParent)')
+    if problems:
+        for p_ in problems:
+            ctx.bad('C13.R9', 'Tree::path_to_node#walk', p_, b.span)
+    else:
+        ctx.ok('C13.R9', 'Tree::path_to_node#walk', 'walks parent edges up to the parentless node, records (source, label) per edge, reverses once: root-to-node order', b.span)
 
 
 def r7(ctx):
